@@ -87,6 +87,12 @@ RULES = {
         "MemoryPool::allocate_memory registers every non-null pointer it returns with counter 1 before returning it.", 4),
     "C20.pool-finalize": (
         "MemoryPool::finalize terminates with an error exactly when the pool is non-empty; Runtime::finalize reaches it on every normal path.", 2),
+    "C20.alias-stale-pointer": (
+        "a member f(const T& x) of T may be called with x == *this unless it refuses that itself (a `this == &x` test): raw pointers "
+        "fetched from x's arrays (x.val(), x.col_ind(), x.row_ptr(), x.elements(), ...) or x's array accessors must not be read on any "
+        "CFG path after *this released / replaced its arrays (clear(), move(), assign / convert / clone into *this, a release loop) - with "
+        "&x == this those pointers refer to the arrays just freed. Broken (this->clear() moved in front of the loops that still read x) -> "
+        "m.transpose(m) reads freed memory.", 4),
     "C20.range-bound": (
         "ranging: every function that stores a pointer `base + offset` derived from another container's array into its own "
         "_elements/_indices (a view: DenseVector(dv, size, offset), DenseVectorBlocked(dv, size, offset)) with recorded extent E is "
@@ -698,7 +704,21 @@ def pool_rules(ck, facts, runtime_facts):
     # ---- finalize
     for fn in one("finalize")[:1]:
         ifs = [n for n in walk(fn.body) if n.get("k") == "If" and any(x.get("k") == "MCall" and x.get("n") in ("size", "empty") and render(x.get("obj")).endswith("_pool") for x in walk(n["c"]))]
-        if len(ifs) != 1:
+        st = finalize_status_form(fn, ifs)
+        if st is not None:
+            # the leak test is handed to the caller instead of terminating here: every caller path must turn it into a failure
+            ok_tt, what = st
+            ck.ob("C20.pool-finalize", "MemoryPool::finalize/non-empty-pool-is-an-error", ok_tt,
+                  "MemoryPool::finalize does not terminate the process itself but returns %s%s" % (
+                      what, "" if ok_tt else ": the returned value does not distinguish an empty pool from a non-empty one"), fn.file, fn.line)
+            if ok_tt:
+                pools = [facts] + ([runtime_facts] if runtime_facts is not None else [])
+                for (caller, call, why) in unconsumed_status(pools, "FEAT::MemoryPool::finalize"):
+                    ck.ob("C20.pool-finalize", "%s/leak-status-consumed" % L.short(caller.qn), False,
+                          "%s (%s:%s) %s: a non-empty pool at shutdown (leaked arrays, reference counts that never reach zero) no longer makes the process fail on this path" % (
+                              L.short(caller.qn), rel(caller.file), call.get("l"), why), caller.file, call.get("l"))
+                ck.ob("C20.pool-finalize", "MemoryPool::finalize/leak-status-propagation", True, "call chains of the returned leak status examined", fn.file, fn.line)
+        elif len(ifs) != 1:
             ck.incomplete("C20.pool-finalize", "MemoryPool::finalize: expected one test of _pool.size()/empty(), found %d" % len(ifs))
         else:
             n = ifs[0]
@@ -749,6 +769,131 @@ def pool_rules(ck, facts, runtime_facts):
             ck.ob("C20.pool-finalize", "Runtime::finalize/calls-MemoryPool::finalize", ok,
                   "every normal path through Runtime::finalize calls MemoryPool::finalize" if ok else
                   "a normal exit of Runtime::finalize is reachable without MemoryPool::finalize (blocks %s)" % bad, fn.file, fn.line)
+
+
+def finalize_status_form(fn, ifs):
+    """MemoryPool::finalize that reports the leak test through its return value instead of terminating:
+    -> (the returned value distinguishes empty / non-empty, description) or None if it is not of that form"""
+    rets = [n for n in walk(fn.body) if n.get("k") == "Return" and n.get("e") is not None]
+    if not rets:
+        return None
+    stops = [x for x in walk(fn.body) if (is_call(x) and (x.get("noreturn") or x.get("callee") in ("exit", "std::exit", "abort", "std::abort", "FEAT::abortion"))) or x.get("k") == "Throw"]
+    if stops:
+        return None
+
+    def sub(x, v):
+        if x.get("k") == "MCall" and render(x.get("obj")).endswith("_pool"):
+            if x.get("n") == "size":
+                return v
+            if x.get("n") == "empty":
+                return v == 0
+        return None
+
+    def value(v):
+        """returned value for a pool of v chunks (straight-line / if tree evaluation)"""
+        def run(n):
+            k = n.get("k")
+            if k == "Block":
+                for s_ in n.get("s", []):
+                    r = run(s_)
+                    if r is not None:
+                        return r
+                return None
+            if k == "If":
+                c = ieval(n["c"], lambda x: sub(x, v))
+                br = n.get("then") if c else n.get("else")
+                return run(br) if br is not None else None
+            if k == "Return":
+                return ("v", ieval(n["e"], lambda x: sub(x, v)))
+            return None
+        return run(fn.body)
+    try:
+        vals = [value(v) for v in (0, 1, 2, 9)]
+    except (NoEval, TypeError, KeyError):
+        return None
+    if any(x is None for x in vals):
+        return None
+    vals = [x[1] for x in vals]
+    distinguishes = all(vals[0] != x for x in vals[1:])
+    return distinguishes, "%s for pool sizes 0,1,2,9" % vals
+
+
+def unconsumed_status(facts_list, callee_qn, depth=0, seen=None):
+    """call sites of callee_qn (in the analysed TUs) whose returned status is dropped: [(caller, call node, why)].
+    A status is consumed if it decides a branch with a terminating call (exit / abort / noreturn) or reaches the caller's own
+    return value - in which case the callers of that caller are examined in turn."""
+    seen = seen if seen is not None else set()
+    if callee_qn in seen or depth > 3:
+        return []
+    seen.add(callee_qn)
+    out = []
+    done = set()
+    for facts in facts_list:
+        for g in facts.functions:
+            if g.body is None or (g.qn, g.file, g.line) in done:
+                continue
+            calls = [c for c in g.nodes() if is_call(c) and c.get("callee") == callee_qn]
+            if not calls:
+                continue
+            done.add((g.qn, g.file, g.line))
+            par = L.parent_map(g)
+            for c in calls:
+                verdict = _status_use(g, par, c, 0)
+                if verdict == "dropped":
+                    out.append((g, c, "discards the status returned by %s" % L.short(callee_qn)))
+                elif verdict == "tested-only":
+                    out.append((g, c, "tests the status returned by %s but neither terminates nor returns it" % L.short(callee_qn)))
+                elif verdict == "returned":
+                    out.extend(unconsumed_status(facts_list, g.qn, depth + 1, seen))
+    return out
+
+
+def _terminates(n):
+    return any((is_call(x) and (x.get("noreturn") or x.get("callee") in ("exit", "std::exit", "abort", "std::abort", "FEAT::abortion", "_exit", "std::quick_exit", "std::terminate"))) or x.get("k") == "Throw"
+               for x in walk(n or {}))
+
+
+def _status_use(g, par, node, depth):
+    """'terminates' | 'returned' | 'tested-only' | 'dropped' for the value of an expression node inside g"""
+    p = par.get(id(node))
+    cur = node
+    while p is not None and p.get("k") in ("Un", "Bin", "Cond", "Construct", "TempObj") or (p is not None and p.get("k") == "Cast" and "void" not in str(p.get("to", ""))):
+        cur, p = p, par.get(id(p))
+    if p is None:
+        return "dropped"
+    k = p.get("k")
+    if k == "Cast":
+        return "dropped"          # (void) f();
+    if k == "Return":
+        return "returned"
+    if k == "If" and p.get("c") is cur:
+        return "terminates" if (_terminates(p.get("then")) or _terminates(p.get("else"))) else (
+            "returned" if any(x.get("k") == "Return" and x.get("e") is not None for x in walk(p)) and _returns_differ(p) else "tested-only")
+    if k in ("While", "Do", "For") and p.get("c") is cur:
+        return "tested-only"
+    if k == "Var" and depth < 3:
+        uses = [x for x in g.nodes() if x.get("k") == "Ref" and x.get("d") == p.get("d")]
+        res = [_status_use(g, par, u, depth + 1) for u in uses]
+        for want in ("terminates", "returned", "tested-only"):
+            if want in res:
+                return want
+        return "dropped"
+    if k == "Assign" and p.get("rhs") is cur and L.unwrap(p["lhs"]).get("k") == "Ref" and depth < 3:
+        d = L.unwrap(p["lhs"]).get("d")
+        uses = [x for x in g.nodes() if x.get("k") == "Ref" and x.get("d") == d and x is not L.unwrap(p["lhs"])]
+        res = [_status_use(g, par, u, depth + 1) for u in uses]
+        for want in ("terminates", "returned", "tested-only"):
+            if want in res:
+                return want
+        return "dropped"
+    if is_call(p) and cur in (p.get("a") or []):
+        return "tested-only" if p.get("k") == "OpCall" else "dropped"
+    return "dropped"
+
+
+def _returns_differ(ifnode):
+    vals = {render(x["e"]) for x in walk(ifnode) if x.get("k") == "Return" and x.get("e") is not None}
+    return len(vals) >= 1
 
 
 def is_pool(e):
@@ -988,6 +1133,201 @@ def container_rules(ck, fam, prefix="C20."):
             ck.ob(prefix + "size-pairing", "%s/%s" % (key, sub), ok, det, fn.file, line, trivial=trivial,
                   sample={"function": fn.full, "pair": det})
     return nfun
+
+
+def alias_stale_rules(ck, fam, seen_fail):
+    memo = {}
+
+    def may_release(g, depth=0):
+        """does the member (or a member of this it calls) release / replace the arrays of its object?"""
+        if g is None or g.body is None:
+            return True
+        if id(g) in memo:
+            return memo[id(g)]
+        memo[id(g)] = False
+        res = False
+        for x in g.nodes():
+            if is_call(x) and str(x.get("callee", "")) == L.POOL + "release_memory":
+                res = True
+            elif x.get("k") == "MCall" and x.get("obj") is not None and L.vec_member(x["obj"]) and L.obj_id(L.vec_member(x["obj"])[1]) == "this" \
+                    and x.get("n") in ("clear", "assign", "swap", "erase", "pop_back", "resize"):
+                res = True
+            elif x.get("k") == "OpCall" and x.get("op") == "=" and x.get("a") and L.vec_member(x["a"][0]) and L.obj_id(L.vec_member(x["a"][0])[1]) == "this":
+                res = True
+            elif x.get("k") == "MCall" and L.short(x.get("ccls", "")) in fam.classes and not x.get("cconst") and not x.get("cstatic") \
+                    and (x.get("obj") is None or L.obj_id(x.get("obj")) == "this") and depth < 3:
+                if may_release(fam.callee_fn(g, x), depth + 1):
+                    res = True
+            if res:
+                break
+        memo[id(g)] = res
+        return res
+
+    for fn in fam.functions():
+        if fn.body is None or fn.cfg is None or fn.d.get("ctor") or fn.d.get("dtor") or fn.d.get("static"):
+            continue
+        mine = re.sub(r"\s+", " ", fn.cls).strip()
+        xs = []
+        for p_ in fn.params:
+            t = re.sub(r"\s+", " ", fn.type(p_["t"])).strip()
+            if t.startswith("const ") and t.endswith("&") and t[6:-1].strip() in (mine, mine.replace("FEAT::LAFEM::", "")):
+                xs.append(p_)
+        if not xs:
+            continue
+        L.Interp(fam, fn)          # installs the alias table for obj_id
+        # invalidations of *this
+        invs = []
+        for n in fn.nodes():
+            if n.get("k") == "MCall" and L.short(n.get("ccls", "")) in fam.classes and not n.get("cconst") and not n.get("cstatic") \
+                    and (n.get("obj") is None or L.obj_id(n.get("obj")) == "this"):
+                if may_release(fam.callee_fn(fn, n)):
+                    invs.append((n, "%s()" % n.get("n")))
+            elif is_call(n) and str(n.get("callee", "")) == L.POOL + "release_memory" and any(L.vec_member(y) and L.obj_id(L.vec_member(y)[1]) == "this" for y in walk(n)):
+                invs.append((n, "release_memory(...)"))
+        if not invs:
+            continue
+        for px in xs:
+            xd = px["d"]
+            guarded = any(n.get("k") == "Bin" and n.get("op") in ("==", "!=") and {L.unwrap(n["lhs"]).get("k"), L.unwrap(n["rhs"]).get("k")} == {"This", "Un"}
+                          and any(y.get("k") == "Ref" and y.get("d") == xd for y in walk(n)) for n in fn.nodes())
+            key = "%s/%s-aliases-this" % (L.fkey(fn), px["n"])
+            if guarded:
+                ck.ob("C20.alias-stale-pointer", key, True, "the function tests `this == &%s` itself" % px["n"], fn.file, fn.line, trivial=True)
+                continue
+
+            def is_x_array(e):
+                e = L.unwrap(e)
+                return e.get("k") == "MCall" and e.get("obj") is not None and L.unwrap(e["obj"]).get("k") == "Ref" and L.unwrap(e["obj"]).get("d") == xd \
+                    and "*" in (fn.ntype(e) or "")
+            # pointers derived from x's arrays
+            ptrs = set()
+            changed = True
+            while changed:
+                changed = False
+                for n in fn.nodes():
+                    tgt = src = None
+                    if n.get("k") == "Var" and n.get("init") is not None and "*" in (fn.type(n.get("t")) or ""):
+                        tgt, src = n["d"], n["init"]
+                    elif n.get("k") == "Assign" and L.unwrap(n["lhs"]).get("k") == "Ref" and "*" in (fn.ntype(L.unwrap(n["lhs"])) or ""):
+                        tgt, src = L.unwrap(n["lhs"])["d"], n["rhs"]
+                    if tgt is not None and tgt not in ptrs and any(is_x_array(y) or (y.get("k") == "Ref" and y.get("d") in ptrs) for y in walk(src)):
+                        ptrs.add(tgt)
+                        changed = True
+            reads = []
+            for n in fn.nodes():
+                if n.get("k") == "Index" or (n.get("k") == "Un" and n.get("op") == "*"):
+                    b = L.unwrap(n["b"] if n.get("k") == "Index" else n["e"])
+                    if (b.get("k") == "Ref" and b.get("d") in ptrs) or is_x_array(b) or any(y.get("k") == "Ref" and y.get("d") in ptrs for y in walk(b)):
+                        reads.append((n, render(n)[:40]))
+                elif is_call(n) and n.get("k") in ("Call", "MCall") and not (n.get("k") == "MCall" and is_x_array(n)):
+                    for a_ in n.get("a") or []:
+                        a0 = L.unwrap(a_)
+                        if (a0.get("k") == "Ref" and a0.get("d") in ptrs) or is_x_array(a0):
+                            reads.append((n, "%s(... %s ...)" % (L.short(str(n.get("callee", ""))), render(a0)[:30])))
+            hazards = []
+            for wn, wt in invs:
+                ww = fn.cfg.block_of(wn.get("i"))
+                if ww is None:
+                    continue
+                for rn, rt in reads:
+                    rw = fn.cfg.block_of(rn.get("i"))
+                    if rw is None:
+                        # an expression inside a statement: take the enclosing statement known to the CFG
+                        par = L.parent_map(fn)
+                        q = par.get(id(rn))
+                        while q is not None and fn.cfg.block_of(q.get("i")) is None:
+                            q = par.get(id(q))
+                        rw = fn.cfg.block_of(q.get("i")) if q is not None else None
+                        if rw is None:
+                            continue
+                    if ww[0] == rw[0]:
+                        after = rw[1] > ww[1] or ww[0] in {b_ for s_ in fn.cfg.succ.get(ww[0], []) for b_ in fn.cfg.reachable(s_)}
+                    else:
+                        after = rw[0] in fn.cfg.reachable(ww[0])
+                    if after:
+                        hazards.append((wt, wn.get("l"), rt, rn.get("l")))
+            ok = not hazards
+            det = ("no `this == &%s` guard; %d release/replace operations on *this, %d reads through %s's arrays: " % (px["n"], len(invs), len(reads), px["n"])) + (
+                "every read precedes them on all paths" if ok else
+                "%s (line %s) can execute after %s (line %s): with &%s == this it reads arrays that were just released" % (hazards[0][2], hazards[0][3], hazards[0][0], hazards[0][1], px["n"]))
+            if not ok:
+                if ("stale", key) in seen_fail:
+                    continue
+                seen_fail.add(("stale", key))
+            ck.ob("C20.alias-stale-pointer", key, ok, det, fn.file, fn.line, trivial=not reads, sample={"function": fn.full, "detail": det})
+
+
+def slot_extent_rules(ck, fam, seen_fail):
+    """C20.extent-agreement, second part: all functions of one class that build the pointer vectors from scratch (constructors,
+    convert / read_from / operator= after a clear) allocate array K of _elements/_indices with the same extent, as a polynomial in
+    the class's own scalar slots (accessors of this inlined: _rows() + 1 -> slot1 + 1).  Every reader of the class (apply kernels,
+    clone, serialize, operator()) sizes its accesses to array K from those slots, so a writer that deviates (row-pointer array
+    with columns + 1 entries) produces an array the readers overrun."""
+    groups = {}
+    for fn in fam.functions():
+        if fn.body is None:
+            continue
+        pushes = [n for n in fn.nodes() if n.get("k") == "MCall" and n.get("n") in L.PUSH and len(n.get("a") or []) == 1 and L.vec_member(n.get("obj"))
+                  and L.obj_id(L.vec_member(n["obj"])[1]) == "this"]
+        if not pushes:
+            continue
+        top = fn.body.get("s", []) if fn.body.get("k") == "Block" else [fn.body]
+        top_ids = {id(x) for x in top}
+        # the vectors must be empty when the first push happens: constructor, or a clear() of this / of the vector first
+        starts_empty = bool(fn.d.get("ctor"))
+        first = min(p_.get("i", 0) for p_ in pushes)
+        for x in fn.nodes():
+            if x.get("k") == "MCall" and x.get("n") == "clear" and x.get("i", 0) < first and id(x) in top_ids:
+                if (L.short(x.get("ccls", "")) in fam.classes and (x.get("obj") is None or L.obj_id(x.get("obj")) == "this")):
+                    starts_empty = True
+        if not starts_empty:
+            continue
+        it = L.Interp(fam, fn)
+        it.inline_accessors = True
+        cnt = {}
+        for pn in sorted(pushes, key=lambda n: n.get("i", 0)):
+            kind = L.vec_member(pn["obj"])[0]
+            j = cnt.get(kind, 0)
+            cnt[kind] = j + 1
+            if id(pn) not in top_ids:
+                cnt[kind] = 10 ** 6          # pushes under conditions / in loops: positions after them are unknown
+                continue
+            if j >= 10 ** 6:
+                continue
+            org, e = it.classify_ptr(pn["a"][0])
+            if org != "alloc" or not e.get("a"):
+                continue
+            pl = L.poly(it, e["a"][0])
+            L._ALIAS.clear()
+            L._ALIAS.update(it.aliases)
+            if not all(re.match(r"^slot\d+$", a) for m in pl for a in m):
+                continue          # extent in terms of parameters / other objects: not comparable across functions
+            groups.setdefault((fn.cls, kind, j), {}).setdefault(L.fkey(fn), (fn, pn, pl))          # per instantiation (block sizes are constants of the extents)
+    for (cls, kind, j), members in sorted(groups.items()):
+        if len(members) < 2:
+            continue
+        forms = {}
+        for fk, (fn, pn, pl) in members.items():
+            forms.setdefault(L.pshow(pl), []).append(fk)
+        major = max(forms.items(), key=lambda kv: len(kv[1]))
+        for fk, (fn, pn, pl) in sorted(members.items()):
+            key = "%s/this._%s[%d]/slots" % (fk, kind, j)
+            if L.pshow(pl) == major[0]:
+                ck.ob("C20.extent-agreement", key, True, "array %d of _%s allocated with %s entries, as in %d of the %d functions of %s that build it" % (
+                    j, kind, L.pshow(pl), len(major[1]), len(members), L.short(cls)), fn.file, pn.get("l"))
+                continue
+            mp = members[major[1][0]][2]
+            v = L.poly_verdict(pl, mp)
+            det = "array %d of _%s allocated with %s entries; %d of the %d functions of %s that build this array (e.g. %s) allocate %s" % (
+                j, kind, L.pshow(pl), len(major[1]), len(members), L.short(cls), major[1][0], major[0])
+            if v != "ne" or len(major[1]) * 2 <= len(members):
+                ck.ob("C20.extent-agreement", key, True, "undecided: " + det, fn.file, pn.get("l"), trivial=True)
+                continue
+            det += ": every reader of the class (kernels, clone, serialize, element access) sizes its accesses to this array from the scalar slots the majority uses - the deviating array is overrun / read past its end whenever the two quantities differ"
+            if ("se", key) in seen_fail:
+                continue
+            seen_fail.add(("se", key))
+            ck.ob("C20.extent-agreement", key, False, det, fn.file, pn.get("l"), sample={"function": fn.full, "detail": det})
 
 
 def range_bound_rules(ck, fam, seen_fail):
@@ -1267,7 +1607,7 @@ def run(tier):
                 ft = featlib.extract(p, files=LAFEM + "|" + POOLF)
                 ck.tu(ft)
                 all_facts.append(ft)
-    runtime = featlib.extract(featlib.repo_path("kernel/runtime.cpp"), files=featlib.repo_path("kernel/runtime.cpp"))
+    runtime = featlib.extract(featlib.repo_path("kernel/runtime.cpp"), files=featlib.repo_path("kernel/runtime"))
     ck.tu(runtime)
 
     nfun = 0
@@ -1289,6 +1629,8 @@ def run(tier):
         nfun += container_rules(ck, fam)
         extent_agreement_rules(ck, fam, ea_seen)
         range_bound_rules(ck, fam, rb_seen)
+        slot_extent_rules(ck, fam, ea_seen)
+        alias_stale_rules(ck, fam, rb_seen)
         if fx is facts:
             L.cross_clone_rules(ck, fam, set(), rule="C20.clone-cross-type")
     pool_rules(ck, facts, runtime)
